@@ -377,6 +377,11 @@ fn engine_s(terms: &[Term], checks: u32, tier: Tier, kernels: &[&str], all_masks
                     for mc in mask_variants(&c, false) {
                         out.push(item(mc, Plan::full(), checks));
                     }
+                    // three workers, every interleaving (thorough; ~25 000 executions / 6 700 states per item)
+                    if th && src == Src::SVec {
+                        let c3f = par(case(src, 4, ch, *t), 3, cs);
+                        out.push(item(c3f, Plan::full(), checks));
+                    }
                     // three workers, bounded
                     let mut c3 = par(case(src, 6, ch, *t), 3, cs);
                     c3.known = known;
@@ -847,6 +852,24 @@ pub fn items(prop: &str, tier: Tier) -> Vec<Item> {
                     out.push(item(c, fair(Plan::pb(2), 2), ck));
                 }
             }
+            // interleavings inside the pulls of the endless by-value source: skip_to_end races with a holder of the handle
+            for ch in ["", "M", "OF"] {
+                for cs in [CsSet::N(1), CsSet::N(2)] {
+                    for p in [0u32, 1, 3] {
+                        for w in [2usize, 3] {
+                            let mut c = par(case(Src::SIter, 0, ch, Term::Find), w, cs);
+                            c.known = false;
+                            c.endless = true;
+                            c.spoints = true;
+                            c.pmask = 1u64 << p;
+                            if w == 2 {
+                                out.push(item(c.clone(), fair(Plan::pb(if th { 3 } else { 2 }), w), ck));
+                            }
+                            out.push(item(c, fair(Plan::db(2), w), ck));
+                        }
+                    }
+                }
+            }
             // unwrapped endless iterator through the public constructor
             for ch in ["", "M", "F"] {
                 for t in [Term::Find, Term::Any, Term::First] {
@@ -1174,11 +1197,22 @@ pub fn items(prop: &str, tier: Tier) -> Vec<Item> {
                         }
                     }
                     // three workers: others keep writing while one unwinds
-                    let mut c3 = par(case(src, 5, ch, *t), 3, CsSet::N(1));
-                    c3.known = known;
-                    c3.fault = Some((0, src_elem(&c3.input, 2).0));
-                    out.push(item(c3.clone(), Plan::pb(if th { 2 } else { 1 }), ck));
-                    out.push(item(c3, Plan::db(2), ck));
+                    for (cs3, fpos) in [(CsSet::N(1), 2usize), (CsSet::N(2), 0), (CsSet::N(2), 3), (CsSet::N(1), 4)] {
+                        if !th && !(fpos == 2 || fpos == 3) {
+                            continue;
+                        }
+                        let mut c3 = par(case(src, 5, ch, *t), 3, cs3);
+                        c3.known = known;
+                        c3.fault = Some((0, src_elem(&c3.input, fpos).0));
+                        out.push(item(c3.clone(), Plan::pb(if th { 2 } else { 1 }), ck));
+                        out.push(item(c3.clone(), Plan::db(2), ck));
+                        if th && src == Src::SVec && cs3 == CsSet::N(2) {
+                            let mut c4 = c3.clone();
+                            c4.input = (0..4).collect();
+                            c4.fault = Some((0, src_elem(&c4.input, fpos.min(3)).0));
+                            out.push(item(c4, Plan::full(), ck));
+                        }
+                    }
                 }
             }
             // sequential mode: the panic propagates as well
